@@ -1,6 +1,6 @@
 (* Property C12 — close() is final, idempotent, and leaves no worker behind.
    Only statements here; proofs are in CacheLocal.v, CacheClose.v and CacheCloseLive.v. *)
-From StrettoModel Require Import Base Metrics Sketch Bloom TinyLFU Policy Ttl Store Cache CacheProofs CacheLocal CacheInv CacheClose CacheCloseLive.
+From StrettoModel Require Import Base Metrics Sketch Bloom TinyLFU Policy Ttl Store Cache CacheProofs CacheLocal CacheInv CacheClose CacheCloseLive TinyLFUProofs CacheNoPanic CacheNoDeadlock.
 Open Scope N_scope.
 
 (* Once the closed flag is set (close() publishes it first), in ANY state: insert returns false,
@@ -75,3 +75,16 @@ Theorem C12_sync_close_offer_has_a_live_partner :
   (client_of st a = KPolCloseStopOffered -> s_wpc st = WIdle).
 Proof. exact sync_close_offer_has_a_live_partner. Qed.
 Print Assumptions C12_sync_close_offer_has_a_live_partner.
+
+(* close() is never part of a deadlock (sync flavour, every reachable state): a closer waiting in the
+   rendezvous of the stop message always has a partner that can move — the cache processor takes the
+   stop at its loop head or goes on with what it is doing; the policy worker takes its stop. *)
+Theorem C12_blocked_close_has_a_moving_partner :
+  forall c mc t now st a,
+  tl_wf t -> c_async c = false ->
+  reach_u64 c (cinit c mc t now) st ->
+  N.of_nat (length (s_start st)) <= Consts.NUM_TO_KEEP ->
+  (client_of st a = KCloseStopOffered -> exists h st' o, cstep c st (LProc h) = StepOk st' o) /\
+  (client_of st a = KPolCloseStopOffered -> exists h st' o, cstep c st (LWorker h) = StepOk st' o).
+Proof. exact blocked_close_has_a_moving_partner. Qed.
+Print Assumptions C12_blocked_close_has_a_moving_partner.
